@@ -234,6 +234,14 @@ def cli_jobs(chk):
             jobs.append((amr, [text_of(c) for c in s], None, s))
         for c in contents:
             jobs.append((amr, None, text_of(c), (c,)))
+        # boundary: graphs with exactly 255 / 256 / 257 / 512 offending triples (an exit status is 8 bits wide)
+        def many(n):
+            return '(a / alpha' + ''.join(f' :zz{i} k{i}' for i in range(n)) + ')\n'
+        for n in (255, 256, 257, 512):
+            jobs.append((amr, [many(n)], None, ('many', n)))
+        jobs.append((amr, [many(256), many(512)], None, ('many', 256, 512)))
+        jobs.append((amr, None, many(256), ('many-stdin', 256)))
+        jobs.append((amr, [many(256), text_of(('G',))], None, ('many', 256, 'G')))
     return jobs
 
 
